@@ -3,7 +3,7 @@ from __future__ import annotations
 
 import ast
 
-from sa.loader import norm, norm1, walk_shallow, own_nodes, call_name, subscript_writes
+from sa.loader import recv, norm, norm1, walk_shallow, own_nodes, call_name, subscript_writes
 from sa.tables import fold, Unfoldable
 from sa.rulekit import (nodes_where, node_calls, node_roots, nodes_calling, return_nodes, own,
                         nodes_writing_attr, must_pass, is_const, written_value, expr_is, kw,
@@ -117,7 +117,7 @@ def run(ck):
         ge = ck.cfg(expiry.fid, 'M0')
         clears = [w for w in nodes_writing_attr(ge, '_active_timer')
                   if is_const(written_value(w, '_active_timer'), None)]
-        deliver = nodes_where(ge, lambda n: any(call_name(c) == 'event' and norm(c.func.value) == 'self'
+        deliver = nodes_where(ge, lambda n: any(call_name(c) == 'event' and recv(c) == 'self'
                                                 for c in node_calls(n)))
         ok = bool(clears) and bool(deliver) and \
             all(ge.path_avoiding(ge.entry, [d], avoid=clears) is None for d in deliver) and \
@@ -183,7 +183,7 @@ def run(ck):
     ok = callers == sorted([stt.fid, m['_restore_state'].fid])
     ck.ob(R4, "who calls _set_timer", ok, f"_set_timer is called by {callers}", st, st.node)
     g = ck.cfg(stt.fid, 'M0')
-    imm = nodes_where(g, lambda n: any(call_name(c) == 'event' and norm(c.func.value) == 'self'
+    imm = nodes_where(g, lambda n: any(call_name(c) == 'event' and recv(c) == 'self'
                                        for c in node_calls(n)))
     sets = nodes_calling(g, '_set_timer')
     both = None
@@ -240,7 +240,7 @@ def run(ck):
                        "an infinite duration neither fires nor sets a timer")
     else:
         ck.ob(R6, f"{stt.fid} :: INF_TIME", False, "no `return` under `duration == INF_TIME`", stt, stt.node)
-    imm = nodes_where(g, lambda n: any(call_name(c) == 'event' and norm(c.func.value) == 'self'
+    imm = nodes_where(g, lambda n: any(call_name(c) == 'event' and recv(c) == 'self'
                                        for c in node_calls(n)))
     okz = bool(imm)
     for i in imm:
